@@ -184,6 +184,25 @@ package interp
 //@ func newLexer
 //@   ensures result != nil
 
+// The goyacc driver of the arithmetic grammar is generated code and trusted
+// (its actions are verified one by one, see the action blocks below).
+//@ func (*yyParserImpl).Parse
+//@   skip goyacc driver loop and tables: trusted generator output
+//@ func (*yyParserImpl).Lookahead
+//@   skip goyacc driver
+//@ func yyParse
+//@   skip goyacc driver
+//@ func yyNewParser
+//@   skip goyacc driver
+//@ func yylex1
+//@   skip goyacc driver (token translation tables)
+//@ func yyErrorMessage
+//@   skip goyacc driver (error message tables)
+//@ func yyStatname
+//@   skip goyacc driver
+//@ func yyTokname
+//@   skip goyacc driver
+
 // ---- arithmetic evaluator (64-bit two's complement) ----
 
 //@ panicclass runtime value is runtime.Error
